@@ -55,7 +55,7 @@ def diff_cases(ctx, cases, timeout=900, model=True, label='main'):
     for i, ln in enumerate(lines):
         a, b = impl_out[i], model_out[i]
         if model:
-            if a != b:
+            if a != b and not (getattr(ctx, 'matcher', None) and ctx.matcher(ln, a, b)):
                 bad.append((i, a, b))
         elif 'CRASH' in a or any(t.isupper() and len(t) > 3 and not all(ch in '0123456789ABCDEF-' for ch in t) for t in a.split()):
             bad.append((i, a, b))
@@ -110,6 +110,7 @@ def run(pid, tier, seed, replay=None):
     mod = importlib.import_module(pid.lower())
     ctx = Ctx(pid, tier, seed)
     ctx.canon = getattr(mod, 'canon_impl', None)
+    ctx.matcher = getattr(mod, 'matcher', None)
     known = vlib.load_known()
     obligations = []
     props_ok = True
